@@ -15,9 +15,14 @@ that case-fold to ASCII letters, word-class letters, fullwidth forms, Unicode bl
 keywords in another case; inputs nested 500..5000 deep, whose results are read ITERATIVELY (explicit stack over
 .subformulas(), the recursion limit is never raised); and SESSIONS: one fresh parser object per logic is given a sequence in
 which every string comes back a second and a third time, interleaved with look-alikes (blank-padded, blank-collapsed,
-case-changed, fullwidth) - every call must give the outcome of a parser that has never seen anything."""
+case-changed, fullwidth) - every call must give the outcome of a parser that has never seen anything.
+Second audit (c10_streams.py): every character U+0000..U+00FF and text-templating metacharacter sequences (% { $ \\ ...) in templates,
+garbage / one-character edits over all of ASCII, lone surrogates and other unencodable / special code points, exotic QUOTED atoms
+followed by an error later in the text; observer FOLD (.pos and outcome are invariant under non-ASCII -> '#', tab -> blank);
+observer TYPED (str-subclass instances get the outcome of the exact str)."""
 from common import *
 import parsegen as PG
+import c10_streams as S2
 LEVEL = 'proof'
 LANGS = PG.LANGS
 
@@ -111,6 +116,27 @@ def build_cases(R):
     # --- keywords in another case (plain names, never operators)
     for _ in range(20000 if th else 2000):
         add('casewords', PG.case_words(rng, rng.randint(1, 5)))
+    # --- second audit: every character U+0000..U+00FF in every template; text-templating metacharacter sequences; garbage and
+    #     one-character edits over ALL of ASCII; lone surrogates / non-characters / private use / bidi controls
+    for t in S2.fixed(S2.BYTES):
+        add('bytes_fixed', t)
+    for t in S2.fixed(S2.META, S2.META_TEMPLATES):
+        add('meta_fixed', t)
+    for _ in range(20000 if th else 1500):
+        add('ascii_garbage', S2.ascii_garbage(rng))
+    for name, s in sample:
+        for _ in range(2 if th else 1):
+            add('ascii_charmut', S2.char_edit(rng, s, S2.ASCII + S2.META))
+    for t in S2.fixed(S2.ODD):
+        add('odd_fixed', t)
+    for name, s in (sample if th else rng.sample(sample, min(len(sample), 700))):
+        add('odd_mut', S2.char_edit(rng, s, S2.ODD))
+    # --- quoted atoms with wide / non-BMP / combining / tab / surrogate content FIRST, the error LATER in the text
+    for t in S2.quoted_fixed(rng):
+        add('quoted_tail', t)
+    for name, s in sample:
+        for _ in range(3 if th else 1):
+            add('quoted_tail', S2.quoted_tail(rng, s)[1])
     # --- sessions: sequences for ONE parser object per logic; every string comes back a second and a third time
     corpus = sorted({s for L in LANGS for s in CORPUS[L]})
     by_stream = {}
@@ -120,7 +146,8 @@ def build_cases(R):
     sessions = [PG.session(rng, corpus)]
     for _ in range(160 if th else 23):
         base = []
-        for st, k in (('printed', 8), ('mutated', 8), ('respaced', 3), ('special', 4), ('garbage', 3), ('unicode_fixed', 2), ('unicode_mut', 2), ('words<=3', 2), ('charmut', 2)):
+        for st, k in (('printed', 8), ('mutated', 8), ('respaced', 3), ('special', 4), ('garbage', 3), ('unicode_fixed', 2), ('unicode_mut', 2), ('words<=3', 2), ('charmut', 2),
+                      ('quoted_tail', 2), ('meta_fixed', 1), ('odd_fixed', 1)):
             base += rng.sample(by_stream[st], k)
         rng.shuffle(base)
         sessions.append(PG.session(rng, base))
@@ -225,7 +252,15 @@ def run(R):
               'as a blank, inside a quoted atom), one such character put into each valid string, and short word sequences with such names; keywords in another case; DEEP: unary chains, parentheses and right/left nested binary '
               'operators nested 500..5000 deep (balanced and off by one), results read iteratively and compared with the model as preorder token lists, recursion limit untouched; SESSIONS: 24 sequences (thorough 161) of ~200 strings, '
               'each given to ONE fresh parser object per logic: the documented examples and samples of every stream, each string twice in a row, then two look-alikes (blank-padded with ASCII / Unicode blanks, blank-collapsed, lower/upper/swapped case, '
-              'a fullwidth letter), then again, and once more at the end in another order - every outcome (class, tree, exception class, .pos) must equal the model and the outcome of the first pass. Per (string, parser): '
+              'a fullwidth letter), then again, and once more at the end in another order - every outcome (class, tree, exception class, .pos) must equal the model and the outcome of the first pass. '
+              "ALL CHARACTERS: every character U+0000..U+00FF (all control characters, all ASCII punctuation incl. % @ ^ ` $) in the 22 templates; 77 sequences a text-templating step would interpret (printf %-directives, str.format / "
+              "string.Template fields, regex references, backslash escapes, ANSI / HTML fragments) in 15 templates with and without quoted atoms, accepted and rejected; garbage over all 128 ASCII characters; one such character edited into each valid string; "
+              "41 lone surrogates / surrogate pairs written as two code points / non-characters / private-use / bidi and invisible format characters (strings no UTF-8 encoder accepts, or that codecs and normalisers treat specially) in the 22 templates and edited into valid strings; "
+              "QUOTED-THEN-WRONG: quoted atoms whose content is East-Asian wide / fullwidth / non-BMP / combining / right-to-left / tab / control / %-directive / surrogate text in place of the atoms of valid strings and in 23 small templates, then one token edit, "
+              "a dangling tail or a cut AFTER them (legal exotic atom first, error later). Observer FOLD (implementation vs implementation, for every generated string that changes under it): replacing every non-ASCII character by '#', every tab by a blank and, in "
+              "strings without a quote, every newline / CR / FF by a blank leaves outcome class, exception class and .pos unchanged and the tree unchanged up to the same replacement in atom names (.pos counts code points whatever precedes it). Observer TYPED: ~310 strings of all streams "
+              "given as instances of five str SUBCLASSES (plain subclass, subclass with its own __str__/__repr__/__format__, str-mixin Enum member, StrEnum member, lark Token) must get the outcome of the exact str. "
+              "Per (string, parser): "
               'outcome class and exception contract on the implementation, accepted tree in the documented grammar and in the parser\'s own module, '
               'accept/reject and tree vs the model; Earley upper bound on accepted strings. evaluations = (string, parser) pairs. non-trivial = a string '
               'some parser accepts and another rejects, or a (string, parser) rejected at one token edit from a string that parser accepts (or vice versa)')
@@ -297,6 +332,56 @@ def run(R):
                 if len(s) <= 40 and len(split_samples.setdefault(key, [])) < 1 and st.split(':')[0] in ('printed', 'mutated', 'special'):
                     split_samples[key].append({'string': s, 'accepted_by': [L for L, r in zip(LANGS, rs) if r[0] == 'ok'],
                                                'rejected_by': [L for L, r in zip(LANGS, rs) if r[0] != 'ok']})
+    # ---- fold observer: non-ASCII -> '#', tab -> blank (and newlines -> blank in strings without a quote) changes neither the
+    #      outcome nor .pos (implementation against implementation; the model does not predict .pos)
+    fpairs = [(s, S2.fold(s)) for s in sorted({c[1] for c in cases}) if len(s) <= 600]
+    fpairs = [(s, f) for s, f in fpairs if f != s]
+    fnew = sorted({f for _, f in fpairs} - set(obs))
+    fobs = dict(zip(fnew, PG.pmap(PG.observe4_chunk, fnew)))
+    pend_fold, fold_hist = [], {'pairs': len(fpairs), 'accepted': 0, 'rejected': 0, 'rejected_with_non_ascii_before_pos': 0, 'differences': 0}
+    for s, f in fpairs:
+        rf4 = obs[f] if f in obs else fobs[f]
+        for L, r, rf in zip(LANGS, obs[s], rf4):
+            R.evaluations += 1
+            if (L, s) in reported:
+                continue
+            if not S2.fold_agree(s, r, rf):
+                reported.add((L, s))
+                nviol += 1
+                fold_hist['differences'] += 1
+                if len(pend_fold) < 12:
+                    pend_fold.append(("%s.Parser: outcome / .pos changes when every non-ASCII character is replaced by '#' and every tab (without a quote in the text: every newline too) by a blank" % L,
+                                      {'lang': L, 'string': s, 'stream': 'fold', 'folded': f, 'impl': r, 'impl_folded': rf}))
+                continue
+            fold_hist['accepted' if r[0] == 'ok' else 'rejected'] += 1
+            if r[0] == 'err' and isinstance(r[3], int) and any(ord(c) >= 0x80 for c in s[:r[3]]):
+                fold_hist['rejected_with_non_ascii_before_pos'] += 1
+                R.nontriv(('fold', L, s))
+    # ---- typed observer: the same text as an instance of a str subclass
+    by_st = {}
+    for st, s, _ in cases:
+        if len(s) <= 200:
+            by_st.setdefault(st.split(':')[0], []).append(s)
+    tsample = sorted({s for L in LANGS for s in CORPUS[L]})
+    for st, k in (('printed', 60), ('mutated', 60), ('special', 30), ('garbage', 15), ('unicode_fixed', 15), ('quoted_tail', 30), ('meta_fixed', 20),
+                  ('odd_fixed', 10), ('respaced', 15), ('words<=3', 20)):
+        tsample += R.rng.sample(by_st[st], min(len(by_st[st]), k * (6 if R.thorough else 1)))
+    tsample = sorted(set(tsample))
+    titems = [(kind, s) for s in tsample for kind in S2.STRTYPES]
+    tobs = PG.pmap(S2.observe_typed_chunk, titems)
+    pend_typed, typed_hist = [], {k: {'same_outcome': 0, 'differences': 0} for k in S2.STRTYPES}
+    for (kind, s), rs in zip(titems, tobs):
+        for L, r, r0 in zip(LANGS, rs, obs[s]):
+            R.evaluations += 1
+            if r != r0:
+                nviol += 1
+                typed_hist[kind]['differences'] += 1
+                if len(pend_typed) < 10 and not any(d['lang'] == L and d['strtype'] == kind for _, d in pend_typed):
+                    pend_typed.append(('%s.Parser: an instance of a str subclass (%s) with the same text does not get the outcome of the str' % (L, kind),
+                                       {'lang': L, 'string': s, 'stream': 'typed', 'strtype': kind, 'impl': r, 'impl_exact_str': r0}))
+            else:
+                typed_hist[kind]['same_outcome'] += 1
+                R.nontriv(('typed', kind, L, s))
     # ---- deep inputs: results read iteratively, compared as preorder token lists
     dobs = PG.pmap(PG.observe4_flat_chunk, deep, min_parallel=8, chunk=3)
     douts = model_batch_parallel([PG.parse_cmd(L, s) for s in deep for L in LANGS], jobs=PG.JOBS)
@@ -368,7 +453,7 @@ def run(R):
             later.append((what + ' [only after other calls on the same parser object]', data))
         else:
             R.violation(what, data)
-    for what, data in pend_hist + pend_deep + later:
+    for what, data in pend_fold + pend_typed + pend_hist + pend_deep + later:
         R.violation(what, data)
     for x in edit_samples + [v[0] for k, v in sorted(split_samples.items()) if v][:8]:
         R.sample(x, limit=12)
@@ -388,6 +473,8 @@ def run(R):
     R.cov['cases_by_stream'] = {st: sum(1 for c in cases if c[0] == st) for st in sorted(hist)}
     R.cov['cases_by_stream']['deep'] = len(deep)
     R.cov['deep_accepted_results_by_nesting_depth'] = dict(sorted(depth_hist.items()))
+    R.cov['fold_observer'] = fold_hist
+    R.cov['str_subclass_observer'] = dict(typed_hist, strings=len(tsample))
     R.cov['sessions'] = dict(rep, sessions=len(sessions), strings_per_session=[len(q) for q in sessions[:3]])
     R.exhaustive = False
 
@@ -419,6 +506,27 @@ def replay(R, data):
             print('     model: %s%s' % ((flat_summary(m),), ('   <-- ' + '; '.join(bad)) if bad else ''))
             again = again or (bad and L == L0)
         if again:
+            R.violation('replayed', d)
+        return
+    if d.get('stream') == 'typed':
+        j = LANGS.index(L0)
+        r = S2.observe_typed(d['strtype'], s, L0)
+        r0 = PG.observe(L0, s)
+        m = PG.model_parse_result(outs[j])
+        print('%-4s impl, text given as %s: %s' % (L0, d['strtype'], short(r, 600)))
+        print('     impl, exact str        : %s' % short(r0, 600))
+        print('     model                  : %s' % short(m, 600))
+        if r != r0:
+            R.violation('replayed', d)
+        return
+    if d.get('stream') == 'fold':
+        f = S2.fold(s)
+        r, rf = PG.observe(L0, s), PG.observe(L0, f)
+        print('folded:', short(f, 400))
+        print('%-4s impl         : %s' % (L0, short(r, 600)))
+        print('     impl (folded): %s' % short(rf, 600))
+        print('     model        : %s' % short(PG.model_parse_result(outs[LANGS.index(L0)]), 600))
+        if not S2.fold_agree(s, r, rf) or contract(L0, s, r):
             R.violation('replayed', d)
         return
     if 'history' in d:
